@@ -387,4 +387,60 @@ example : wmfCore "out" "output" none (some "/plots/p") none (some "csv") = .ok 
 example : wmfCore "out" "output" (some "/d") (some "p") none (some "csv") = .ok ("d", "p", "csv", "out/d/p.csv") := by
   decide +kernel
 
+/-! ## Seed round K: existing names that are empty strings
+
+"MakeFilename never replaces an existing name unless overwrite is set": existence is presence of the key.  The
+theorem `makefilename_keeps_existing` (Props/C19) is stated with `isSome`, so it covers `some ""`; what had no theorem
+is the consequence for the FILE: a value whose three names exist goes where they say, whatever `MakeFilename` stands
+before `Write`. -/
+
+/-- **A value that already has its names is written where they say** — for every `MakeFilename` without `overwrite`
+(any methods, any templates), every `name`, every output directory and every incoming context in which
+`output.filename`, `output.dirname` and `output.fileext` exist (as any strings, the empty one included):
+`Write` after `MakeFilename` computes the same result (path or exception) as `Write` alone. -/
+theorem mfWritePath_existing (ms : List (MFKey × Tpl)) (name : Option String) (outdir : String) (o : OutCtx)
+    (hf : o.filename.isSome) (hd : o.dirname.isSome) (he : o.fileext.isSome) :
+    mfWritePath false ms name outdir o = wMakeFilename outdir "output" o := by
+  obtain ⟨k1, k2, k3⟩ := makefilename_keeps_existing ms name o
+  simp only [mfWritePath, wMakeFilename, k1 hf, k2 hd, k3 he, mfCall_filetype]
+
+/-- the same for each name alone: an existing name (possibly empty) is the one `Write` reads -/
+theorem mfWritePath_reads_existing (ms : List (MFKey × Tpl)) (name : Option String) (outdir : String) (o : OutCtx) :
+    mfWritePath false ms name outdir o =
+      wmfCore outdir "output"
+        (if o.dirname.isSome then o.dirname else (mfCall false ms name o).1.dirname)
+        (if o.filename.isSome then o.filename else (mfCall false ms name o).1.filename)
+        (if o.fileext.isSome then o.fileext else (mfCall false ms name o).1.fileext) o.filetype := by
+  obtain ⟨k1, k2, k3⟩ := makefilename_keeps_existing ms name o
+  simp only [mfWritePath, wMakeFilename, mfCall_filetype]
+  congr 1
+  · split <;> rename_i h
+    · exact k2 h
+    · rfl
+  · split <;> rename_i h
+    · exact k1 h
+    · rfl
+  · split <;> rename_i h
+    · exact k3 h
+    · rfl
+
+/-- non-vacuity, the seed's situation: a `Makefile` without extension directly in the output directory passes
+`MakeFilename(filename="plot", dirname="plots", fileext="csv")` -/
+example : mfWritePath false [(.filename, [.lit "plot"]), (.dirname, [.lit "plots"]), (.fileext, [.lit "csv"])] none "out"
+    { filename := some "Makefile", dirname := some "", fileext := some "" } = .ok ("", "Makefile", "", "out/Makefile") := by
+  decide +kernel
+
+/-- … `makefilename_keeps_existing` on empty names (its hypotheses hold for `some ""`) -/
+example : (mfCall false [(.dirname, [.lit "plots"]), (.fileext, [.lit "csv"])] (some "n")
+    { dirname := some "", fileext := some "" }).1 = { dirname := some "", fileext := some "" } := by decide +kernel
+
+/-- … with `overwrite` they are replaced -/
+example : mfWritePath true [(.dirname, [.lit "plots"]), (.fileext, [.lit "csv"])] none "out"
+    { filename := some "Makefile", dirname := some "", fileext := some "" } =
+    .ok ("plots", "Makefile", "csv", "out/plots/Makefile.csv") := by decide +kernel
+
+/-- … and an absent name is set (the hypothesis `isSome` is not redundant) -/
+example : mfWritePath false [(.fileext, [.lit "csv"])] none "out" { filename := some "Makefile", dirname := some "" } =
+    .ok ("", "Makefile", "csv", "out/Makefile.csv") := by decide +kernel
+
 end Lena.C19
